@@ -2823,6 +2823,104 @@ def check_state_id_source(mir):
     return res
 
 
+# ---------------------------------------------------------------------------------------------
+# integer literals (C08): every integer parse of Tokenizer::eat_number uses the literal's radix - the wide (128-bit)
+# path the same one as the 64-bit path - and no radix-less parse of the digits exists
+# ---------------------------------------------------------------------------------------------
+def check_integer_literal_radix(mir):
+    text = function_text(mir, r'^fn [^\n]*::eat_number\(')
+    if text is None:
+        return dict(function='Tokenizer::eat_number', verdict='unknown', conflict='eat_number not found in the MIR')
+    fn = parse_function(text)
+    defs = {}
+    for blk in fn['blocks'].values():
+        for st in blk['stmts']:
+            m = re.match(r'(_\d+) = (.*);$', st)
+            if m:
+                defs.setdefault(m.group(1), []).append(m.group(2))
+
+    def root(local):
+        for _ in range(6):
+            d = defs.get(local, [])
+            m = len(d) == 1 and re.match(r'(?:move|copy) (_\d+)$', d[0])
+            if not m:
+                break
+            local = m.group(1)
+        return local
+    radix_parses, plain_parses = [], []
+    for bid, blk in fn['blocks'].items():
+        if blk['cleanup']:
+            continue
+        dst, callee = call_of(blk['term'])
+        if not callee:
+            continue
+        m = re.match(r'core::num::<impl ([ui]\d+)>::from_str_radix\((?:move|copy) _\d+, (?:(?:move|copy) (_\d+)|const (\d+)_u32)\)', callee)
+        if m:
+            radix_parses.append((m.group(1), root(m.group(2)) if m.group(2) else 'const %s' % m.group(3)))
+        m = re.match(r'core::str::<impl str>::parse::<([ui]\d+)>\(', callee)
+        if m:
+            plain_parses.append(m.group(1))
+    s_ = z3.Solver()
+    n_plain = z3.Int('radixless_integer_parses')
+    s_.add(n_plain == len(plain_parses))
+    ids = {}
+    rs = [z3.IntVal(ids.setdefault(r_, len(ids))) for _, r_ in radix_parses]
+    wide = [r_ for (ty, _), r_ in zip(radix_parses, rs) if ty in ('u128', 'i128')]
+    bad = [n_plain != 0]
+    if rs:
+        bad += [r_ != rs[0] for r_ in rs[1:]]
+    s_.add(z3.Or(*bad) if bad else z3.BoolVal(False))
+    t0 = time.time()
+    r = s_.check()
+    res = dict(function='Tokenizer::eat_number', radix_parses=radix_parses, radixless_integer_parses=plain_parses, z3_s=round(time.time() - t0, 3))
+    if not radix_parses or not wide:
+        res.update(verdict='unsat', conflict='eat_number has no radix-aware 128-bit parse (radix parses: %s, radix-less: %s)' % (radix_parses, plain_parses))
+    elif r == z3.unsat:
+        res.update(verdict='sat')
+    else:
+        res.update(verdict='unsat', conflict='integer parses of eat_number do not all use the literal\'s radix (radix parses: %s, radix-less: %s)' % (radix_parses, plain_parses))
+    return res
+
+
+def run_literal_radix(prop, tier, seed):
+    t0 = time.time()
+    ev = dict(engine='M', violations=[], known_hits=[], problems=[], coverage={})
+    try:
+        mir = dump_mir(REPO, os.path.join(BUILD, 'mir'))
+    except MirError as e:
+        ev['problems'].append('engine M: %s' % e)
+        return ev
+    res = check_integer_literal_radix(mir)
+    err = build_tool('render')
+    if err:
+        ev['problems'].append('engine M: render tool did not build')
+        return ev
+    lits = []
+    for val in (2 ** 64, 2 ** 64 + 255, 2 ** 100 + 7, 2 ** 63, 255):
+        lits += [('0x%x' % val, val), ('0o%o' % val, val), ('0b%s' % bin(val)[2:], val), (str(val), val)]
+    reqs = [dict(src='{{ %s }}' % l, ctx={}) for l, _ in lits]
+    inp = '\n'.join(json.dumps(q) for q in reqs) + '\n'
+    p = subprocess.run([os.path.join(BUILD, 'native', 'debug', 'render')], input=inp, stdout=subprocess.PIPE, stderr=subprocess.PIPE, text=True, timeout=120)
+    outs = [json.loads(l) for l in p.stdout.split('\n') if l.strip()]
+    bad = ['%s renders %r, expected %d' % (l, o.get('ok', o), v) for (l, v), o in zip(lits, outs) if o.get('ok') != str(v)]
+    if res['verdict'] == 'unsat':
+        if bad:
+            rp = os.path.join(nativelib.replay_dir(), '%s-M-literal-radix.json' % prop)
+            json.dump(dict(engine='M', kind='safesrc', property=prop, mir_finding=res, requests=[[q, str(v)] for q, (l, v) in zip(reqs, lits)],
+                           how='bin/check %s --replay %s' % (prop, rp)), open(rp, 'w'), indent=1)
+            ev['violations'].append(dict(replay=rp, failed=[dict(desc='%s; natively: %s' % (res['conflict'], bad[0][:200]), loc='minijinja/src/compiler/lexer.rs eat_number (MIR)')]))
+        else:
+            ev['problems'].append('engine M: %s, but every literal of the native grid has its value' % res['conflict'])
+    elif res['verdict'] != 'sat':
+        ev['problems'].append('engine M: integer literals: %s %s' % (res['verdict'], res.get('conflict') or ''))
+    elif bad:
+        ev['problems'].append('engine M: integer literal %s although every parse uses the radix' % bad[0][:200])
+    log('[%s] engine M (integer literal radix): %s; native: %d literals, %d wrong' % (prop, res['verdict'], len(outs), len(bad)))
+    ev['coverage'] = dict(queries=1, results=[res], native_scenarios=len(outs), native_scenarios_failing=len(bad), check='integer_literal_radix')
+    ev['wall_s'] = round(time.time() - t0, 1)
+    return ev
+
+
 def run_pool_buffers(prop, tier, seed):
     t0 = time.time()
     ev = dict(engine='M', violations=[], known_hits=[], problems=[], coverage={})
